@@ -9,11 +9,26 @@
       name, then the rust epilogues; blocks of other backends do not contribute;
     - predefined and extern items emit nothing;
     - two definitions of one path are rejected at registration ([add_definition], [add_extern_type]).
+    END TO END (FilesInput.v, FilesRead.v, FilesWhole.v; readers that only look at the emitted
+    tokens): [C14_files_whole] -- for every accepted, collision-free build of an input with distinct
+    module paths, the written files are, up to order, exactly one file [out_path k] per input
+    module [k <> []] (the root gets none), and the file of module [gm] satisfies [file_ok gm f]:
+    its items are the opaque rust prologue (the input's `backend rust` prologues joined in source
+    order, nothing of other backends), a body without opaque text, the opaque rust epilogue; and
+    the (kind, name) pairs of the struct / enum items read back from the file are a PERMUTATION of
+    [module_decls gm] = one pair per type / enum definition of the input module plus
+    ("struct", T ++ "Vftable") per type with a vftable block -- nothing for extern types,
+    built-ins or other modules' items; [C14_declared_names_distinct]: those names are pairwise
+    distinct, so "exactly once"; [C14_file_names_distinct] / [C14_file_of_a_module_unique]: file
+    names are pairwise distinct when no path segment contains '/' (necessary:
+    [FilesWhole.out_path_not_injective]); [C14_files_whole_any_permutation_schedule].
     What the model cannot exhibit (glob, directories, the actual writes) is covered by running the
     real [pyxis::build] into a fresh directory and listing it. *)
 From Coq Require Import List NArith ZArith Bool String Permutation.
 From PyxisModel Require Import Base Sexp Grammar SemTypes Registry Sem SemLemmas Emit EmitLemmas.
 Import ListNotations.
+
+From PyxisModel Require EmitReaders EmitFinal FilesInput FilesRead FilesWhole.
 
 Theorem C14_one_file_per_module : forall st files,
   write_all st = Ok files ->
@@ -58,3 +73,76 @@ Theorem C14_duplicate_rejected : forall mp st d,
   add_definition mp st d = Err "the item is defined more than once"%string.
 Proof. intros mp st d H. unfold add_definition. rewrite H. reflexivity. Qed.
 Print Assumptions C14_duplicate_rejected.
+
+Theorem C14_files_whole :
+  forall (order : schedule) (ptr : N) (mods : list (path * gmodule)) (st0 st : sstate)
+      (files : list (string * sexp)),
+    WholeBuild.input_state ptr mods = Ok st0 ->
+    NoDup (map fst mods) ->
+    WholeBuild.collision_free (st_reg st0) ->
+    EmitFinal.keeps_work order ->
+    pyxis_resolve order ptr mods = BOk st ->
+    write_all st = Ok files ->
+    exists fs : list (path * sexp),
+      Permutation files (map FilesRead.file_of fs) /\
+      map fst fs = filter FilesInput.nonroot (map fst mods) /\
+      (forall (k : path) (gm : gmodule) (f : sexp),
+       In (k, gm) mods -> In (k, f) fs -> FilesWhole.file_ok gm f).
+Proof. exact FilesWhole.files_whole. Qed.
+Print Assumptions C14_files_whole.
+
+Theorem C14_files_whole_any_permutation_schedule :
+  forall (order : list path -> list path) (ptr : N) (mods : list (path * gmodule)) 
+      (st0 st : sstate) (files : list (string * sexp)),
+    WholeBuild.input_state ptr mods = Ok st0 ->
+    NoDup (map fst mods) ->
+    WholeBuild.collision_free (st_reg st0) ->
+    (forall l : list path, Permutation (order l) l) ->
+    pyxis_resolve order ptr mods = BOk st ->
+    write_all st = Ok files ->
+    exists fs : list (path * sexp),
+      Permutation files (map FilesRead.file_of fs) /\
+      map fst fs = filter FilesInput.nonroot (map fst mods) /\
+      (forall (k : path) (gm : gmodule) (f : sexp),
+       In (k, gm) mods -> In (k, f) fs -> FilesWhole.file_ok gm f).
+Proof. exact FilesWhole.files_whole_perm. Qed.
+Print Assumptions C14_files_whole_any_permutation_schedule.
+
+Theorem C14_declared_names_distinct :
+  forall (order : schedule) (ptr : N) (mods : list (path * gmodule)) (st0 st : sstate) 
+      (k : path) (gm : gmodule),
+    WholeBuild.input_state ptr mods = Ok st0 ->
+    NoDup (map fst mods) ->
+    WholeBuild.collision_free (st_reg st0) ->
+    EmitFinal.keeps_work order ->
+    pyxis_resolve order ptr mods = BOk st ->
+    In (k, gm) mods -> NoDup (map snd (FilesWhole.module_decls gm)).
+Proof. exact FilesWhole.module_decls_nodup. Qed.
+Print Assumptions C14_declared_names_distinct.
+
+Theorem C14_file_names_distinct :
+  forall (order : schedule) (ptr : N) (mods : list (path * gmodule)) (st0 st : sstate)
+      (files : list (string * sexp)),
+    WholeBuild.input_state ptr mods = Ok st0 ->
+    NoDup (map fst mods) ->
+    WholeBuild.collision_free (st_reg st0) ->
+    EmitFinal.keeps_work order ->
+    pyxis_resolve order ptr mods = BOk st ->
+    write_all st = Ok files ->
+    (forall k : path, In k (map fst mods) -> FilesWhole.slash_free k) -> NoDup (map fst files).
+Proof. exact FilesWhole.files_nodup. Qed.
+Print Assumptions C14_file_names_distinct.
+
+Theorem C14_file_of_a_module_unique :
+  forall (order : schedule) (ptr : N) (mods : list (path * gmodule)) (st0 st : sstate)
+      (files : list (string * sexp)) (k : path) (gm : gmodule) (f : sexp),
+    WholeBuild.input_state ptr mods = Ok st0 ->
+    NoDup (map fst mods) ->
+    WholeBuild.collision_free (st_reg st0) ->
+    EmitFinal.keeps_work order ->
+    pyxis_resolve order ptr mods = BOk st ->
+    write_all st = Ok files ->
+    (forall k0 : path, In k0 (map fst mods) -> FilesWhole.slash_free k0) ->
+    In (k, gm) mods -> k <> [] -> In (out_path k, f) files -> FilesWhole.file_ok gm f.
+Proof. exact FilesWhole.files_unique. Qed.
+Print Assumptions C14_file_of_a_module_unique.
